@@ -25,6 +25,7 @@ class Ctx:
         self.analysed = {}
         self.assumptions = []
         self._programs = {}
+        self.default_config = os.environ.get("VERIF_CONFIG", "A")
         self._src = None
         self.samples = []
         with open(os.path.join(VERIF, "tables", "anchors.json")) as fh:
@@ -33,7 +34,8 @@ class Ctx:
             self.known = json.load(fh)
 
     # ------------------------------------------------------------ facts
-    def program(self, config="A"):
+    def program(self, config=None):
+        config = config or self.default_config
         if config not in self._programs:
             d = extract.ensure_mir(config)
             p = mir.Program(d)
